@@ -156,6 +156,9 @@ def run(chk):
                 continue
             ops.append(fw.asm_op([("main.asm", p)]))
             what.append((name, k))
+    for i, t in enumerate(F.word_edge_positions()):
+        ops.append(fw.asm_op([("main.asm", t)]))
+        what.append(("word_edge_position", i))
     impl = fw.run_oracle_resilient(ops, "c19")
     model = fw.run_model(ops, "c19", timeout=3000)
     for (name, k), a, m in zip(what, impl, model):
